@@ -14,7 +14,9 @@ type Finding struct {
 	ID       string   `json:"id"`
 	Property string   `json:"property"`
 	Class    string   `json:"class"`
+	Classes  []string `json:"classes"`      // alternative to Class: any of these
 	Requires []string `json:"requires_kinds"`
+	ReqAny   []string `json:"requires_any"` // at least one of these must have fired
 	Allowed  []string `json:"allowed_kinds"`
 	Site     string   `json:"site"`
 	What     string   `json:"what"`
@@ -47,7 +49,16 @@ func (fs *Findings) ByID(id string) *Finding {
 
 func (fs *Findings) Match(rf *ReplayFile) string {
 	for _, f := range fs.Findings {
-		if f.Status != "open" || f.Property != rf.Property || f.Class != rf.Class {
+		if f.Status != "open" || f.Property != rf.Property {
+			continue
+		}
+		classOK := f.Class != "" && f.Class == rf.Class
+		for _, c := range f.Classes {
+			if c == rf.Class {
+				classOK = true
+			}
+		}
+		if !classOK {
 			continue
 		}
 		fired := map[string]bool{}
@@ -60,8 +71,22 @@ func (fs *Findings) Match(rf *ReplayFile) string {
 				ok = false
 			}
 		}
+		if len(f.ReqAny) > 0 {
+			any := false
+			for _, k := range f.ReqAny {
+				if fired[k] {
+					any = true
+				}
+			}
+			if !any {
+				ok = false
+			}
+		}
 		allowed := map[string]bool{}
 		for _, k := range f.Requires {
+			allowed[k] = true
+		}
+		for _, k := range f.ReqAny {
 			allowed[k] = true
 		}
 		for _, k := range f.Allowed {
